@@ -205,6 +205,43 @@ pub fn run(ctx: &Ctx) -> Result<()> {
 			let _ = std::fs::remove_file(&p);
 		}
 	}
+	// a PMTiles container with leaf directories (full pyramid 0..=7, 21845 tiles): concurrent lookups that fall into different leaves
+	{
+		use versatiles_container::{get_reader, write_to_filename};
+		use versatiles_core::types::*;
+		let rt = tokio::runtime::Builder::new_multi_thread().worker_threads(8).enable_all().build()?;
+		let mut tiles: Vec<((u8, u32, u32), Vec<u8>)> = Vec::new();
+		for z in 0..=7u8 { let n = 1u32 << z; for x in 0..n { for y in 0..n { tiles.push(((z, x, y), format!("t{z}/{x}/{y}").into_bytes())); } } }
+		let p = std::fs::canonicalize(&ctx.out)?.join("leaves.pmtiles");
+		let mut src = crate::memsrc::MemSource::new("mem", tiles.clone(), TileFormat::PNG, TileCompression::Uncompressed);
+		rt.block_on(write_to_filename(&mut src, p.to_str().unwrap()))?;
+		let leaf_len = std::fs::read(&p).ok().and_then(|b| b.get(48..56).map(|s| u64::from_le_bytes(s.try_into().unwrap()))).unwrap_or(0);
+		stats.insert("pmtiles_leaf_bytes".into(), leaf_len);
+		let tiles = Arc::new(tiles);
+		let per = if ctx.thorough { 40_000u64 } else { 6_000 };
+		let mut wrong = 0u64; let mut first: Option<String> = None;
+		for round in 0..3u64 {
+			let reader: Arc<Box<dyn TilesReaderTrait>> = Arc::new(rt.block_on(get_reader(p.to_str().unwrap()))?);
+			let res: Vec<(u64, Option<String>)> = rt.block_on(async {
+				let mut hs = Vec::new();
+				for t in 0..8u64 {
+					let (reader, tiles) = (reader.clone(), tiles.clone()); let seed = ctx.seed * 77 + round * 13 + t;
+					hs.push(tokio::spawn(async move {
+						let mut rng = Rng::new(seed); let mut bad = 0u64; let mut first = None;
+						for _ in 0..per { let (c, d) = &tiles[rng.below(tiles.len() as u64) as usize];
+							let r = reader.get_tile_data(&TileCoord3 { x: c.1, y: c.2, z: c.0 }).await;
+							if !matches!(&r, Ok(Some(b)) if b.as_slice() == d.as_slice()) { bad += 1; if first.is_none() { first = Some(format!("{}/{}/{} -> {}", c.0, c.1, c.2, match &r { Ok(Some(b)) => format!("{:?}", String::from_utf8_lossy(b.as_slice())), Ok(None) => "None".into(), Err(e) => format!("error {e}") })); } } }
+						(bad, first)
+					}));
+				}
+				let mut v = vec![]; for h in hs { v.push(h.await.unwrap_or((1, Some("task panicked".into())))); } v
+			});
+			for (b, f) in res { wrong += b; if first.is_none() { first = f; } }
+		}
+		*stats.entry("reader_lookups_pmtiles_leaves".into()).or_insert(0) += 3 * 8 * per;
+		if wrong > 0 { viol.push(("concurrent-lookup".into(), "pmtiles with leaf directories (21845 tiles): 8 tasks looking up random tiles on one reader".into(), format!("{wrong} lookups got a wrong answer, first: {}", first.unwrap_or_default()))); }
+		let _ = std::fs::remove_file(&p);
+	}
 	let nbad = bad.load(Ordering::SeqCst);
 	stats.insert("wrong_reads".into(), nbad);
 	if nbad > 0 {
